@@ -359,7 +359,7 @@ PROPS = {
                 "followed by the initial text; every get-messages reply is the complete board at some instant of its round (a suffix of the final "
                 "board starting at a post boundary, not older than posts acknowledged before); every post announced (102) exactly once to every "
                 "connected client; every 109 carries exactly the agreement; non-trivial = two reads overlap on a board > 512 bytes, or a read "
-                "overlaps a post, or simultaneous logins against an agreement > 512 bytes; distinct = hash(sizes, rounds, logins); in a quarter of the bubble cases a stale MessageBoard.txt.tmp (what a server that died between writing and renaming leaves behind) is present from the start",
+                "overlaps a post, or simultaneous logins against an agreement > 512 bytes; distinct = hash(sizes, rounds, logins); in a quarter of the bubble cases a stale MessageBoard.txt.tmp (what a server that died between writing and renaming leaves behind) is present from the start; in a third of the bubble cases the operator edits the agreement file (LF line ends) and reloads it before the simultaneous logins, which must then be shown the new text with converted line ends",
         "assumptions": ["goroutine schedules are sampled (bubble: Go scheduler inside the bubble; live: real scheduler)", "board text uses CR line ends (the store converts LF on load)"],
         "quick": {"runs": [{"test": "^TestC19$", "shards": 12, "checks": 60, "timeout": 900},
                            {"test": "^TestC19Live$", "shards": 2, "timeout": 600, "weight": 2}]},
